@@ -249,7 +249,7 @@ func (en *env) nativeRaise() (goja.Value, error) {
 		en.r.Interrupt(en.token)
 		return en.vals[vRet], nil
 	case pErr:
-		panic(en.r.NewTypeError("m"))
+		panic(en.mustCall("MKERR", nil))
 	default:
 		panic(en.vals[int(p)])
 	}
